@@ -90,6 +90,13 @@ func fedSetup(p *sim.Plan) *sim.Setup {
 		Config: func(w *sim.World, n int, cfg *config.Config) {
 			if cl.S == nil {
 				cl.S, cl.After, cl.T0 = w.S, w.After, w.T0
+				// operations of a plan can wait for "the Hello reply reaches node X" (X is about to run its
+				// full-state synchronisation): subscription changes land inside the handshake
+				cl.OnDeliver = func(f *simfed.Frame) {
+					if f.Kind == "resp" && strings.HasSuffix(f.Method, "Hello") {
+						w.FireTrigger("hello>" + f.To)
+					}
+				}
 			}
 			fc := &federation.Config{
 				NodeName: fedNode(n), FedAddr: fedNode(n) + ":8901", AdvertiseFedAddr: fedNode(n) + ":8901",
